@@ -1354,6 +1354,18 @@ def sec_multi(ctx, rng, case):
             return {"fwd": c, "rev": built[-1]}
         return c
 
+    # the function may name only some of the sweep's parameters, or take them as **kwargs: it is called with what it
+    # accepts, while every keyed circuit is labelled with the whole sweep point it was built for
+    sig_form = ["a,b", "a,b", "a-only", "**kwargs"][int(rng.integers(4))]
+    fn_full = fn
+    if sig_form == "a-only":
+        b_fixed = vb[0]
+
+        def fn(a):  # noqa: F811
+            return fn_full(a, b_fixed)
+    elif sig_form == "**kwargs":
+        def fn(**kw):  # noqa: F811
+            return fn_full(kw["a"], kw["b"])
     try:
         msg = S.serialize_circuit_function(fn, sweep)
     except (ValueError, TypeError) as e:
@@ -1388,7 +1400,7 @@ def sec_multi(ctx, rng, case):
         errs += serrs
     check_known(ctx, not errs, "circuit-function-structure",
                 "C16:circuit-function-roundtrip" if why in (None, "generic") else why, lambda: "; ".join(errs[:3]),
-              errors=errs[:8], template=strip_private(template), sweep=sweep_spec, as_map=as_map)
+              errors=errs[:8], template=strip_private(template), sweep=sweep_spec, as_map=as_map, function_signature=sig_form)
     check_proto(ctx, msg, calls, [kc.circuit for kc in msg.keyed_circuits])
     ctx.distinct(("cfn", repr(strip_private(template)), repr(sweep_spec), as_map), nontrivial=len(rows) > 1)
     ctx.sample({"form": "circuit-function", "assignments": len(rows), "as_map": as_map})
